@@ -24,6 +24,7 @@ class Ctx:
         self.notes = []
         self._facts = {}
         self.rules = {}                # rule id -> description
+        self.cited_rules = {}          # rule ids cited by the reviewed reasons of panic-site discharges -> first citing site
         self.not_decided = []
         self.assumptions = []
 
@@ -100,6 +101,10 @@ def sensitivity(pid):
             'seeds': len(seeds), 'reported': sum(1 for v in res.values() if v.startswith('reported')), 'results': res}
 
 
+# rules that run under the id of the including property: cited id -> ids it is also evaluated as
+META_ALIAS = {'R12.2': ('R03.5',), 'R01.8': ('R06.7',)}
+
+
 def main(argv):
     pid = argv[1]
     tier = argv[2] if len(argv) > 2 else os.environ.get('VERIF_TIER', 'quick')
@@ -118,6 +123,12 @@ def main(argv):
         ctx.ob('build', 'build-failed', False, 'facts could not be extracted: %s' % str(e)[:1500])
     except Exception:
         ctx.ob('engine', 'engine-error', False, 'rule engine error (fail closed): ' + traceback.format_exc()[-1500:])
+    if ctx.cited_rules and not any(not o['ok'] and o['rule'] in ('anchor', 'build', 'engine') for o in ctx.obligations):
+        # a reviewed discharge reason that rests on another rule is only as good as that rule: it must have run in this check
+        ctx.rule('META.1', 'every rule cited by the reviewed reason of a panic-site discharge used in this check has been evaluated in this check')
+        for cited, site in sorted(ctx.cited_rules.items()):
+            ran = any(o['rule'] in (cited,) + META_ALIAS.get(cited, ()) for o in ctx.obligations)
+            ctx.ob('META.1', 'cited:' + cited, ran, 'rule %s (cited by the discharge of %s) is part of this check' % (cited, site))
     known = {(k['property'], k['key']): k for k in load_known() if k.get('status') == 'known'}
     bad = [o for o in ctx.obligations if not o['ok']]
     viol, kf = [], []
